@@ -12,11 +12,12 @@
     mod opcodes the sequence built by emit_muldivmod (pushes, divisor in rcx, MUL / DIV, result moves, pops, the zero-divisor
     test and the jump inside the sequence) leaves the ISA value in the destination, restores rax, rdx and the stack and
     never raises #DE, under the sequence machine X86Seq.v whose instruction lengths are those the encoders are proved to
-    emit.  The other opcodes (calls, lddw, byte swaps, prologue/epilogue) and what the CPU does with the bytes are exercised by checks/C03.py (every opcode x every register
+    emit; (6) the byte swaps at each width (and / mov / rol16+and / bswap) and the wide load define the ISA value.  The other
+    opcodes (calls: see C08; exit, prologue/epilogue) and what the CPU does with the bytes are exercised by checks/C03.py (every opcode x every register
     pair x boundary immediates / displacements x control-flow shapes x 4 VM kinds) against the interpreter. *)
 From Coq Require Import ZArith List.
-From RbpfV Require Import MachInt Ebpf WellFormed Verifier JitLogicProofs X86Enc JitEncProofs X86Sem X86Seq ClAluProofs ClJmpProofs JitArmsProofs JitMulDivProofs.
-From RbpfV.gen Require Import JitLogic JitEnc JitArms JitMulDiv.
+From RbpfV Require Import MachInt Ebpf Isa WellFormed Verifier JitLogicProofs X86Enc JitEncProofs X86Sem X86Seq ClAluProofs ClJmpProofs JitArmsProofs JitMulDivProofs ClMiscProofs JitMiscProofs.
+From RbpfV.gen Require Import JitLogic JitEnc JitArms JitMulDiv JitMisc.
 Import ListNotations.
 Open Scope Z_scope.
 
@@ -122,6 +123,21 @@ Example C03_enc_example :
   gen_emit_load [] 8 7 0 127 = Ok [0x0f; 0xb6; 0x47; 0x7f] /\ gen_emit_load [] 8 7 0 128 = Ok [0x0f; 0xb6; 0x87; 0x80; 0; 0; 0].
 Proof. vm_compute. repeat split. Qed.
 
+(** byte swaps: le16 = and r32, 0xffff; le32 = mov r32, r32; le64 = nothing; be16 = rol r16, 8 then and r32, 0xffff;
+    be32 / be64 = bswap: each leaves the ISA's to_little / to_big value in the destination and touches nothing else *)
+Theorem C03_byte_swaps : forall big w R stk d, In w [16; 32; 64] -> (forall r, 0 <= R r < 2 ^ 64) ->
+  exists R' fl, run_seq (gen_jit_endian big w d) R stk = Some (XFall {| x_r := R'; x_stk := stk; x_fl := fl |})
+             /\ R' d = isa_endian_value big w (R d) /\ forall r, r <> d -> R' r = R r.
+Proof. exact jit_endian_arms. Qed.
+
+(** the wide load: the constant computed by jit_compile from the two immediates is low + high * 2^32 (mod 2^64) and the
+    emitted mov leaves it in the destination *)
+Theorem C03_wide_load : forall lo hi R stk d, - 2 ^ 31 <= lo < 2 ^ 31 -> - 2 ^ 31 <= hi < 2 ^ 31 ->
+  exists v, gen_jit_lddw_value lo hi = Ok v /\
+  exists R' fl, run_seq (gen_jit_lddw d v) R stk = Some (XFall {| x_r := R'; x_stk := stk; x_fl := fl |})
+             /\ R' d = u64 (u32 lo + u32 hi * 2 ^ 32) /\ forall r, r <> d -> R' r = R r.
+Proof. exact jit_lddw_arm. Qed.
+
 (** non-vacuity of the mul / div / mod theorem: 100 / 7 in rdi, a division by zero, a 32-bit modulo, the empty sequence *)
 Definition C03_regs (r : Z) : Z := if r =? 7 then 100 else if r =? 6 then 7 else if r =? 2 then 2 ^ 40 + 9 else 0.
 Example C03_muldiv_example :
@@ -129,7 +145,9 @@ Example C03_muldiv_example :
     = (14, 0, 2 ^ 40 + 9, [55]) /\
   (match run_seq (gen_jit_muldivmod 3 0x3f 0 7 0) C03_regs [] with Some (XGoto t st) => (t, x_r st 7) | _ => (-1, -1) end) = (4, 0) /\
   (match run_seq (gen_jit_muldivmod 3 0x9c 7 2 0) C03_regs [] with Some (XFall st) => x_r st 2 | _ => -1 end) = 9 /\
-  gen_jit_muldivmod 3 0x94 6 7 0 = [] /\ List.length gen_jit_muldiv_ops = 12%nat.
+  gen_jit_muldivmod 3 0x94 6 7 0 = [] /\ List.length gen_jit_muldiv_ops = 12%nat /\
+  (match run_seq (gen_jit_be16 2) C03_regs [] with Some (XFall st) => x_r st 2 | _ => -1 end) = 0x0900 /\
+  gen_jit_lddw_value (-1) (-2) = Ok (-4294967297).
 Proof. vm_compute. repeat split. Qed.
 
 Print Assumptions C03_register_map.
@@ -144,5 +162,7 @@ Print Assumptions C03_memory_accesses_regs.
 Print Assumptions C03_memory_accesses_packet.
 Print Assumptions C03_muldiv_arms.
 Print Assumptions C03_muldiv_bytes.
+Print Assumptions C03_byte_swaps.
+Print Assumptions C03_wide_load.
 Print Assumptions C03_jump_targets.
 Print Assumptions C03_call_targets.
